@@ -10,6 +10,7 @@ import Depccg.GlueRun
 import Depccg.Read.Deriv
 import Depccg.Read.Prolog
 import Depccg.Read.Conll
+import Depccg.Read.Json
 
 namespace Depccg
 namespace OpsMore
@@ -72,6 +73,13 @@ def dispatch (op : String) (ts : List String) : Option String :=
       | _ => "bad-op")
   | "json_text" => some (match pList (pList pScoredK) ts with
       | some (b, []) => "ok " ++ encStr (jsonText b)
+      | _ => "bad-op")
+  | "json_read" => some (match pStr ts with
+      | some (s, []) => (match Read.readJsonOutput s with
+        | some sents => "ok " ++ toString sents.length ++ String.join (sents.map fun (n, es) =>
+            " || " ++ toString n ++ " " ++ toString es.length ++ String.join (es.map fun (t, sc) =>
+              " " ++ (match sc with | some k => toString k | none => "ninf") ++ " " ++ encJTree t))
+        | none => "none")
       | _ => "bad-op")
   | "deriv" => some (printOp derivOf ts)
   | "mathml_cat" => some (match pStr ts with
